@@ -741,6 +741,10 @@ def push (v : VRing α) (x : α) : Option (VRing α) :=
     let h := v.t.r.head.toNat
     some { (v.destruct h).construct h with t := t' }
 
+/-- `push(obj)` with `obj` being the head slot itself (`place == &obj`, e.g.
+`r.push(r.head_place())`): nothing is destroyed or constructed, the head moves on -/
+def pushSelf (v : VRing α) : VRing α := { v with t := { v.t with r := ringMoveHeadOne v.t.r } }
+
 /-- `pop`: `buffer[idx].~T(); new (buffer.data() + idx) T(); ring_move_tail_one(&r);` -/
 def pop (v : VRing α) (d : α) : Option (VRing α) :=
   match v.t.pop d with
@@ -785,6 +789,7 @@ end VRing
 /-- scripts over one `igris::ring<T>` object and its successors by copy / move -/
 inductive VOp (α : Type) where
   | push (x : α)
+  | pushSelf
   | pop
   | clear
   | resize (sz : Nat)
@@ -793,6 +798,7 @@ inductive VOp (α : Type) where
 
 def VRing.step {α : Type} (dflt : α) (v : VRing α) : VOp α → Option (VRing α)
   | .push x => v.push x
+  | .pushSelf => some v.pushSelf
   | .pop => v.pop dflt
   | .clear => VRing.clear dflt (v.t.r.size.toNat + 1) v
   | .resize sz => some (v.resize dflt sz)
